@@ -22,7 +22,7 @@ Definition load (f : file_res) : exn + (mclass * xml) :=
   end.
 
 (* one file of `mosromgr detect` / `mosromgr inspect` *)
-Definition detect_one (do_inspect : bool) (nf : str * file_res) : list line :=
+Definition detect_one (o : oracles) (do_inspect : bool) (nf : str * file_res) : list line :=
   let (name, f) := nf in
   match load f with
   | inl _ => [Err (name ++ lit ": Invalid")]
@@ -32,7 +32,7 @@ Definition detect_one (do_inspect : bool) (nf : str * file_res) : list line :=
           match base_of k d with
           | None => [Err (name ++ lit ": Unable to inspect"); Out []]
           | Some b =>
-            match inspect k b with
+            match inspect_o o k b with
             | inr ls => map Out ls ++ [Out []]
             | inl _ => map Out (inspect_partial k b) ++ [Err (name ++ lit ": Unable to inspect"); Out []]
             end
@@ -40,10 +40,10 @@ Definition detect_one (do_inspect : bool) (nf : str * file_res) : list line :=
         else [])
   end.
 
-Definition detect_cmd (do_inspect : bool) (files : list (str * file_res)) : list line * nat :=
+Definition detect_cmd (o : oracles) (do_inspect : bool) (files : list (str * file_res)) : list line * nat :=
   match files with
   | [] => ([Err (lit "Files or bucket name and prefix or key must be provided")], 2)
-  | _ => (flat_map (detect_one do_inspect) files, 0)
+  | _ => (flat_map (detect_one o do_inspect) files, 0)
   end.
 
 (* `mosromgr merge`: status, and the serialised running order when there is one.
